@@ -459,6 +459,12 @@ func c08CheckPayload(c *c08Codec, root reflect.Value, leafs []c08Leaf, vals []re
 	if string(pb) != string(append([]byte(nil), pb...)) || !bytes.Equal(pb, pb2) {
 		return "cross-codec-bytes-differ:" + c.Name + ":" + seg, desc
 	}
+	// ... and again now that BOTH marshalers have been used for this payload (a marshaler that hands out memory it will
+	// write to again changes the previous payload's encoding only when it is called the next time)
+	if c08Prev.codec == c.Name && (string(c08Prev.pb) != c08Prev.pbCopy || string(c08Prev.js) != c08Prev.jsCopy) {
+		c08Prev.codec = ""
+		return "earlier-encoding-changed-by-a-later-marshal-call:" + c.Name, desc + " (the bytes returned for the previous payload were modified)"
+	}
 	c08Prev.codec, c08Prev.pb, c08Prev.pbCopy, c08Prev.js, c08Prev.jsCopy = c.Name, pb, string(pb), js, string(js)
 	// alternative spellings: the deviating 64-bit integer leaf written as a JSON number instead of a string
 	for _, l := range leafs {
